@@ -304,6 +304,10 @@ func (r *Runner) BuildObject(o ObjSpec, cluster bool) corev1alpha1.ObjectSetObje
 		u.SetNamespace(engine.NSMain)
 	}
 	switch o.Special {
+	case "revanno":
+		// valid, unusual: the manifest in the template carries PKO's own revision annotation (e.g. it was exported from a
+		// cluster); PKO's bookkeeping has to win
+		u.SetAnnotations(map[string]string{"package-operator.run/revision": "1"})
 	case "nsb":
 		// a cluster-scoped owner may list namesakes in different namespaces: same kind and name in the other namespace
 		if cluster {
